@@ -148,9 +148,9 @@ func c52(c *Ctx) {
 			if _, _, _, ok := cmpOriented(i.Cond, FieldLoad(fOv)); !ok {
 				continue
 			}
+			nbr += len(breakArms(b))
 			for _, p := range breakPreds(b) {
-				nbr++
-				c.EnteredOnlyWhenExcept(b.Succs[1], "carry-stops-only-at-a-byte-that-did-not-wrap", func(q *ssa.BasicBlock) bool { return q != p }, CmpInt(func(v ssa.Value) bool {
+				c.EnteredOnlyWhenFrom(b.Succs[1], "carry-stops-only-at-a-byte-that-did-not-wrap", p, CmpInt(func(v ssa.Value) bool {
 					u, ok := v.(*ssa.UnOp)
 					if !ok {
 						return false
@@ -232,12 +232,12 @@ func c52(c *Ctx) {
 			}
 		}
 	})
-	c.Ob("reassembly-moves-the-bytes", "R6", "NewConnWithMaxFrameSize / ReadOnReady: whenever a receive buffer is given the length of another buffer (x = x[:len(src)] — carrying an incomplete frame to the front, growing the buffer, taking over the handshaker's leftover bytes) the bytes of that other buffer were copied into it first in the same block", 3, func() {
+	c.Ob("reassembly-moves-the-bytes", "R6", "NewConnWithMaxFrameSize / ReadOnReady: whenever a receive buffer is given the length of another buffer (x = x[:len(src)] — carrying an incomplete frame to the front, growing the buffer, taking over the handshaker's leftover bytes) the bytes of that other buffer were copied into it first in the same step", 3, func() {
 		n := 0
 		for _, fn := range []string{"NewConnWithMaxFrameSize", "conn.ReadOnReady"} {
 			f := c.fn(altsc, fn)
 			for _, b := range f.Blocks {
-				for i, in := range b.Instrs {
+				for _, in := range b.Instrs {
 					sl, ok := in.(*ssa.Slice)
 					if !ok || sl.Low != nil || sl.High == nil {
 						continue
@@ -254,9 +254,9 @@ func c52(c *Ctx) {
 					n++
 					c.inst("relocation <- " + c.siteStr(in))
 					okCopy := false
-					for _, prev := range b.Instrs[:i] {
-						call, ok := prev.(*ssa.Call)
-						if ok && BuiltinCall("copy")(&call.Call) && call.Call.Args[0] == sl.X && same(call.Call.Args[1], src) {
+					for _, cp := range callsIn(f, BuiltinCall("copy")) {
+						call, ok := cp.(*ssa.Call)
+						if ok && thenAlways(call, in) && same(call.Call.Args[0], sl.X) && same(call.Call.Args[1], src) {
 							okCopy = true
 						}
 					}
